@@ -1048,6 +1048,51 @@ func runC06(r *vk.Run) {
 		}
 	})
 
+	// every escape JSON allows inside a string, also the ones Go's own syntax does not know (\/ and surrogate
+	// pairs), in every form of the json stage: the field's value is the string the escapes denote
+	r.Phase("escapes", r.N(40, 2000), func(c *vk.Case) {
+		rng := c.Rng
+		type fld struct{ raw, val string }
+		pool := []fld{{`"http:\/\/x\/y"`, "http://x/y"}, {`"\ud83d\ude00 ok"`, "\U0001F600 ok"}, {`"a\u00e9\u4e16"`, "a\u00e9\u4e16"}, {`"tab\there \"q\" back\\slash"`, "tab\there \"q\" back\\slash"},
+			{`"\b\f\n\r"`, "\b\f\n\r"}, {`"\u0041\u005c"`, "A\\"}, {`"plain"`, "plain"}, {`"\ud834\udd1e clef"`, "\U0001D11E clef"}, {`"sl\/ash \u002f"`, "sl/ash /"}}
+		a, b, x := vk.Pick(rng, pool), vk.Pick(rng, pool), vk.Pick(rng, pool)
+		line := `{"url":` + a.raw + `,"nested":{"text":` + b.raw + `},"other":` + x.raw + `,"status":200}`
+		for _, st := range []struct {
+			stage string
+			want  map[string]string
+		}{
+			{`| json`, map[string]string{"url": a.val, "other": x.val, "status": "200"}}, // (how a nested object is exposed by the bare form is not stated)
+			{`| json url, other`, map[string]string{"url": a.val, "other": x.val}},
+			{`| json u="url", t="nested.text", s="status"`, map[string]string{"u": a.val, "t": b.val, "s": "200"}},
+			{`| json url, t="nested.text"`, map[string]string{"url": a.val, "t": b.val}},
+			{`| json s="status"`, map[string]string{"s": "200"}}, // the walk passes every string of the line, asked for or not
+		} {
+			got, gotLine, msg := c06Eval(c, line, st.stage, nil)
+			if msg == "" && gotLine != line {
+				msg = "line changed"
+			}
+			if msg == "" {
+				if _, bad := got["__error__"]; bad {
+					msg = "well-formed JSON flagged __error__: " + got["__error_details__"]
+				}
+			}
+			if msg == "" {
+				for k, v := range st.want {
+					if got[k] != v {
+						msg = fmt.Sprintf("field %s=%q, expected %q", k, got[k], v)
+					}
+					c.Count("escaped_fields_asserted", 1)
+				}
+			}
+			if msg != "" {
+				c.Fail("", st.stage+" on "+line+": "+msg, map[string]any{"line": line, "stage": st.stage, "labels": got})
+				return
+			}
+		}
+		c.Nontrivial("escapes:" + line)
+	})
+	r.Require("escaped_fields_asserted", 300)
+
 	// malformed lines: kept, unchanged, flagged (json/logfmt/unpack); non-matching: kept unchanged
 	r.Phase("malformed", r.N(150, 40000), func(c *vk.Case) {
 		rng := c.Rng
